@@ -76,6 +76,8 @@ r(S + "skip_block_scalar_indent", "assert:Overflow(Sub)", "bufmaxlen() - 2: capa
 r(S + "skip_break", "diverge", "debug_assert!(is_break(c)): skip_break/read_break are only called after next_is_break()/is_break tests on the cursor (class-domain obligation of C14(c); reviewed at the call sites)")
 r(S + "unroll_indent", "unwrap", I2 + " (the loop runs while indent > col >= -1)")
 
+r("saphyr::loader::is_core_schema_number", "index-call", "string slices at the byte offset returned by str::find for an ASCII character ('e'/'E'/'.') and at that offset + 1: both are char boundaries inside the string (find returns the start of a match, the match is one byte long)")
+
 F = facts.load()
 fns = C01.parse_path_functions(F)
 entries = []
